@@ -29,6 +29,10 @@ CLAIMED["C17"] = ("Unbounded proof (every n up to 2^32, every branch factor 2..2
   "Trusted: slices.Index extern contract, go/ssa, SMT solvers (nonlinear integer arithmetic). SubTree == descendant set, heights: see clauses_not_decided.",
   "contract-based deductive verification: WP over go/ssa + SMT (govc)", "DESIGN.md 3 C17")
 
+CLAIMED["C08"] = ("Unbounded proof for the timeout collector (any number of stored timeouts, views, senders): add reports a quorum exactly when the timeouts stored for that view plus the new one reach the quorum of the configured membership and the new one is not a duplicate (recursive count spec, loop invariant, induction lemma); the returned list contains only timeouts of that view, from pairwise distinct senders, at least a quorum of them; deleteOldViews keeps only views >= the current one. The defect found by these obligations (quorum counted over all views) is fixed in /repo.",
+  "Trusted: extern contracts for slices.ContainsFunc / DeleteFunc (filter semantics via index maps), RuntimeConfig.QuorumSize contract (C20), go/ssa, SMT solvers. Not decided: see clauses_not_decided (certificate construction and verification at other replicas, second advance).",
+  "contract-based deductive verification: WP over go/ssa + SMT (govc)", "DESIGN.md 3 C08")
+
 NA = {
  "C01": "cross-replica agreement over all schedules and Byzantine behaviours is a protocol-level inductive invariant over a distributed history; no contract on a function or object of one process can state it (DESIGN.md 3 C01)",
  "C05": "liveness / bounded progress under eventual synchrony is a property of whole executions of all replicas; partial-correctness contracts cannot state it (DESIGN.md 3 C05)",
